@@ -406,3 +406,10 @@ M("C08", "base-default-copy-removed", BASE, "    def copy(self):\n        return
 M("C10", "mask-listener-inherits-label", LIS, '    def info(self, orb):\n        return self.event(self, "AOS" if self(orb) > self(self.prev) else "LOS")\n\n    def check(self, orb):\n        # Override to disable', '    def check(self, orb):\n        # Override to disable', "DEFS")
 M("C03", "date-eq-hook-added-in-subclass-position", DATE, "    def __eq__(self, other):\n        return self._mjd == other._mjd\n", "    def __eq__(self, other):\n        return self._mjd == other._mjd\n\n    def __ne__(self, other):\n        return abs(self._mjd - other._mjd) > 1e-9\n", "DEFS")
 R("C08", "new-private-helper-new-name", BASE, "    def copy(self):\n        return self.__class__()\n", "    def copy(self):\n        return self._blank()\n\n    def _blank(self):\n        return self.__class__()\n")
+
+# ---- wave p: the offset core (C02, C20) and the time core on C15
+M("C02", "orbitframe-origin-own-scale-clock", "beyond/propagators/kepler.py", "        delta_t = (date - self.orbit.date).total_seconds()", "        delta_t = (date.mjd - self.orbit.date.mjd) * 86400.0", "DEP")
+M("C20", "body-offset-velocity-step", "beyond/env/solarsystem.py", "        x[3:] = (x1[:3] - x0[:3]) / (2 * cls._diff_step.total_seconds())", "        x[3:] = (x1[:3] - x0[:3]) / cls._diff_step.total_seconds()", "DEP")
+M("C15", "date-unpickled-without-eop", DATE, '        super().__setattr__("eop", state["eop"])', '        super().__setattr__("eop", EopDb.get(self._mjd))', "DEP")
+R("C20", "body-offset-comment", "beyond/env/solarsystem.py", "        x[3:] = (x1[:3] - x0[:3]) / (2 * cls._diff_step.total_seconds())", "        # central difference\n        x[3:] = (x1[:3] - x0[:3]) / (2 * cls._diff_step.total_seconds())")
+R("C15", "date-setstate-local", DATE, '        super().__setattr__("eop", state["eop"])', '        eop = state["eop"]\n        super().__setattr__("eop", eop)')
